@@ -19,10 +19,15 @@ def _fails(mod, plan, sig, timeout, stats):
     return None
 
 
+_COST = {"fn": None}
+
+
 def _key(plan):
-    """Well-founded complexity order on plans (fewer ops, shorter, then lexical)."""
+    """Well-founded complexity order on plans (fewer ops, module-specific cost,
+    shorter, then lexical)."""
     c = core.canon(plan)
-    return (len(plan["ops"]), len(c), c)
+    extra = _COST["fn"](plan) if _COST["fn"] else ()
+    return (len(plan["ops"]),) + tuple(extra) + (len(c), c)
 
 
 def ddmin_ops(mod, plan, sig, timeout, stats, deadline):
@@ -60,6 +65,7 @@ def ddmin_ops(mod, plan, sig, timeout, stats, deadline):
 def shrink(mod, plan, sig, timeout=30.0, budget_s=60.0):
     """Return (minimised plan, violation, stats)."""
     stats = {"candidates": 0, "ops_before": len(plan["ops"])}
+    _COST["fn"] = getattr(mod, "plan_cost", None)
     core.import_prysm()   # imported, never called, in this process; children fork from it
     deadline = time.monotonic() + budget_s
     plan = copy.deepcopy(plan)
